@@ -267,7 +267,7 @@ impl BigRat {
         }
 
         if digits == Digits::Fraction {
-            return (true, format!("{}", self));
+            return (true, self.to_fraction_string(base));
         }
 
         let abs = self.abs();
@@ -296,6 +296,19 @@ impl From<f64> for BigRat {
     fn from(value: f64) -> BigRat {
         let inner = NumRat::from_float(value).unwrap();
         BigRat { inner }
+    }
+}
+
+impl BigRat {
+    /// Writes the number as `n/d` (or just `n`) with numerator and
+    /// denominator in the given base, like any other numeral.
+    pub fn to_fraction_string(&self, base: u8) -> String {
+        let numer = self.inner.numer().to_str_radix(base as u32);
+        if self.denom() == BigInt::one() {
+            numer
+        } else {
+            format!("{}/{}", numer, self.inner.denom().to_str_radix(base as u32))
+        }
     }
 }
 
